@@ -4,12 +4,25 @@ the `random.Random` passed in (generation) or of the plan (rendering).
 
 Plan layout (JSON):
   items : [{"id", "k" (kind), "b" (Janet builder expression, evaluated inside `build`),
-            "needs": "none"|"core", "deps": [item ids], "tags": [...]} ...]
+            "needs": "none"|"core" (does the marshalled code reference C functions, i.e. need a
+            lookup table), "gnodes": [graph node ids the builder names], "tags": [...]} ...]
           item 0 is always the value graph: {"k": "graph", "nodes": [...]}
-  ops   : [{"id", "seg", "it", "cls", "e" (Janet expression; `(R n)` = item n of the root),
-            "nodes": [graph node ids the op names]}]
-  asm   : [{"src", "calls": [arg-list source...], "fiber": bool}]
-  neg   : [kind...]                       things documented as not marshalable
+  ops   : the continuation: [{"id", "seg" (1..restarts: the VM generation it runs in), "it" (item),
+            "cls" (id-free class used in signatures), "e" (Janet expression; X = the item,
+            `(R n)` = item n of the root), "nodes"/"gnodes": graph node ids the op names}]
+  asm   : [{"src", "calls": [arg-list source...], "fiber": bool}]     second leg
+  neg   : [kind...]      things documented as not marshalable (must not crash)
+  nocycles : source of a value without sharing, marshalled with the no-cycles flag
+  dict  : none | core (make-image-dict/load-image-dict) | env ((env-lookup root-env) built in each
+          VM) | custom (core + two external values registered under names)
+  live_env : the image is taken while `build` is still running (closure environments on the
+          stack of the alive fiber are copied out by marshal) instead of after it returned
+
+Soundness notes for whoever extends this: the continuation must not depend on table iteration
+order (unmarshal builds tables with another capacity), addresses, hashes, the default RNG or
+gensym; at most ONE key with identity per dictionary and such key nodes hold atoms only (the
+harness printer sorts entries by the stand-alone text of their keys); a string literal never
+contains a capital X (it is the placeholder); `build` stays below 256 slots.
 """
 import json
 
@@ -346,7 +359,7 @@ def graph_ops(r, nodes, nops):
         elif t == "table":
             ops.append({"cls": "shape/weak-table", "e": "(do (drop-garbage (X %d)) (gccollect) [(length (X %d)) (get (X %d) 9999)])" % (i, i, i), "nodes": [i]})
         elif t == "array":
-            ops.append({"cls": "shape/length", "e": "(length (X %d))" % i, "nodes": [i]})
+            ops.append({"cls": "shape/weak-array", "e": "(do (drop-garbage-arr (X %d)) (gccollect) [(length (X %d)) (last (X %d))])" % (i, i, i), "nodes": [i]})
         elif t == "buffer":
             if u < 0.5:
                 ops.append({"cls": "shape/after-mutation", "e": "(do (buffer/push (X %d) \"m%d\") %s)" % (i, len(ops), whole), "nodes": [i]})
@@ -383,10 +396,6 @@ def num(r):
 
 def small(r):
     return str(r.choice([1, 2, 3, 4, 5, 7, 11]))
-
-
-def mut_nodes(nodes):
-    return [n["id"] for n in nodes if n["t"] in ("array", "table") and not n.get("weak")]
 
 
 def any_node(r, nodes):
@@ -528,7 +537,7 @@ def fiber_ops(r, n, cls="fiber/resume", x="X"):
         if u < 0.65:
             ops.append({"cls": cls, "e": "[(resume %s %s) (fiber/status %s)]" % (x, small(r), x)})
         elif u < 0.85:
-            ops.append({"cls": "fiber/status", "e": "[(fiber/status %s) (fiber/last-value %s) (fiber/can-resume? %s)]" % (x, x, x)})
+            ops.append({"cls": "fiber/status", "e": "[(fiber/status %s) (fiber/last-value %s) (fiber/can-resume? %s) (fiber/maxstack %s)]" % (x, x, x, x)})
         else:
             ops.append({"cls": cls, "e": "(resume %s)" % x})
     ops.append({"cls": cls + "-to-completion", "e": drain(x)})
@@ -658,7 +667,10 @@ def it_fstate(r, ctx):
     else:
         n = r.choice([3, 40, 40, 1200])
         b = "(let [f (fiber/new (fn deep [n] (if (= n 0) (yield :bottom) (+ 1 (deep (- n 1))))))] (resume f %d) f)" % n
-    ops = [{"cls": "fiber/status", "e": "[(fiber/status X) (fiber/last-value X) (fiber/can-resume? X)]"}]
+    if r.random() < 0.3:
+        # (never below the stack already in use: such a fiber marshals but is refused by unmarshal)
+        b = "(let [f %s] (fiber/setmaxstack f %d) f)" % (b, r.choice([20000, 70000] if v == 4 else [4096, 20000, 70000]))
+    ops = [{"cls": "fiber/status", "e": "[(fiber/status X) (fiber/last-value X) (fiber/can-resume? X) (fiber/maxstack X)]"}]
     ops += fiber_ops(r, r.randint(0, 2))
     tags = ["fiber"] + (["fiber_suspended"] if v in (3, 4) else [])
     return {"k": "fstate", "b": b, "needs": needs, "tags": tags}, ops
@@ -695,6 +707,8 @@ def it_chan(r, ctx):
     for _ in range(r.randint(1, min(cap + 3, 12))):
         if cnt < cap and r.random() < 0.75:
             v, g = chan_value(r, ctx)
+            if r.random() < 0.05:
+                v, g = "c", []
             gn += g
             L.append("(ev/give c %s)" % v)
             model.append(v)
@@ -855,6 +869,26 @@ ASM_FNS = [
 ]
 
 
+def gen_tree(r, opts, depth=0):
+    """source of a value without any sharing (fresh containers only)"""
+    u = r.random()
+    if depth >= 3 or u < 0.4:
+        a = atom(r, opts)
+        return a
+    n = r.randint(0, 4)
+    kids = [gen_tree(r, opts, depth + 1) for _ in range(n)]
+    k = r.choice(["tuple", "btuple", "array", "table", "struct"])
+    if k == "tuple":
+        return "(tuple %s)" % " ".join(kids)
+    if k == "btuple":
+        return "(tuple/brackets %s)" % " ".join(kids)
+    if k == "array":
+        return "(array %s)" % " ".join(kids)
+    ks = r.sample([q for q in KEY_POOL if q != "math/inf"], n)
+    kv = " ".join("%s %s" % (a, "false" if b == "nil" else b) for a, b in zip(ks, kids))
+    return "(%s %s)" % ("table" if k == "table" else "struct", kv)
+
+
 def gen_asm(r, n, finite=False):
     out = []
     for _ in range(n):
@@ -940,13 +974,14 @@ def gen_plan(r, seed, tier):
             ops.append({"id": len(ops), "it": -1, "seg": s, "cls": "gc", "e": "(do (gccollect) :gc)", "first": r.random() < 0.7})
     neg = [k for k in ("cfun", "alive", "cframe", "stream", "sleeping") if r.random() < 0.12]
     asm = gen_asm(r, r.choice([0, 0, 1, 2, 4]), opts["finite"])
+    nocycles = gen_tree(r, {"finite": opts["finite"]}) if r.random() < 0.15 else None
     gcmode = wchoice(r, [("default", 6), ("bern 0.02", 2), ("bern 0.2", 1), ("every", 0.3 if mode in ("tiny", "small") else 0)])
     knobs = {"seed": seed}
     if gcmode != "default":
         knobs["gc"] = gcmode
     return {"property": "C09", "knobs": knobs, "flavour": flavour, "dict": dict_mode,
             "restarts": restarts, "live_env": r.random() < 0.4, "items": items, "ops": ops,
-            "asm": asm, "neg": neg, "mode": mode}
+            "asm": asm, "neg": neg, "mode": mode, "nocycles": nocycles}
 
 
 # ----------------------------------------------------------------------------
@@ -969,6 +1004,7 @@ PRELUDE = r"""
   (def fwd ((dicts) 1))
   (if fwd (unmarshal (sim/restore key) fwd) (unmarshal (sim/restore key))))
 (defn drop-garbage [t] (put t 9999 @[1 2 3]) nil)
+(defn drop-garbage-arr [a] (array/push a @[1 2 3]) nil)
 (defn fdef [f]
   (def d (disasm f))
   (defn strip [d] (struct ;(mapcat (fn [k] [k (if (= k :defs) (map strip (d k)) (d k))])
@@ -1064,6 +1100,10 @@ def render(plan):
                 else:
                     m.append("    (opx :%s %d %d (fn [] (%s %s)))" % (tag, i, j, fn, c))
         m.append("  )")
+    if plan.get("nocycles"):
+        m.append("  (def nc %s)" % plan["nocycles"])
+        m.append("  (sim/ev :ncref :ok nc)")
+        m.append("  (sim/persist :nc (marshal nc (or ((dicts) 0) @{}) @\"\" true))")
     m.append("  (sim/ev :phase-done 0))")
     p0.append("\n".join(m))
     p0.append("(ev/go main)")
@@ -1078,6 +1118,8 @@ def render(plan):
         if s < K:
             p.append("    (sim/ev :save %d ;(try (do (save :img r) [:ok]) ([e] [:err e])))" % s)
         p.append("    (sim/gc :off))")
+        if s == 1 and plan.get("nocycles"):
+            p.append("  (sim/ev :ncimg ;(try [:ok (let [fwd ((dicts) 1)] (if fwd (unmarshal (sim/restore :nc) fwd) (unmarshal (sim/restore :nc))))] ([e] [:err e])))")
         p.append("  (sim/ev :phase-done %d))" % s)
         p.append("(ev/go main)")
         phases.append("\n".join(p))
@@ -1089,10 +1131,6 @@ def render(plan):
 
 def clone(p):
     return json.loads(json.dumps(p))
-
-
-def item_refs_node(it, nid):
-    return nid in it.get("gnodes", [])
 
 
 def shrink(plan):
@@ -1123,6 +1161,10 @@ def shrink(plan):
     if P.get("neg"):
         q = clone(P)
         q["neg"] = []
+        yield q
+    if P.get("nocycles"):
+        q = clone(P)
+        q["nocycles"] = None
         yield q
     if P["restarts"] > 1:
         q = clone(P)
